@@ -80,6 +80,18 @@ func runC01Flow(t *testing.T, cases []map[string]interface{}, ev *vEvents) {
 			q := role()
 			q.Path, q.Form = totpAuthPath, url.Values{"OTP": {code}}
 			take(w.Do(*q))
+		case "totp_other_twocookies", "botp_other_twocookies":
+			q := vReq{Method: "POST", Headers: map[string]string{"Accept": "application/json", "Cookie": authCookieName + "=" + start},
+				Cookies: map[string]string{authCookieName: w.mintCookie("mallory", AuthTypePassword, 0)}}
+			if vStr(c, "via") == "totp_other_twocookies" {
+				w.armTOTP("mallory")
+				code, _ := totp.GenerateCode(vTOTPSecret, time.Now())
+				q.Path, q.Form = totpAuthPath, url.Values{"OTP": {code}}
+			} else {
+				w.armBootstrapOTP("mallory", "otp-mallory", time.Hour)
+				q.Path, q.Form = bootstrapOtpAuthPath, url.Values{"OTP": {"otp-mallory"}}
+			}
+			take(w.Do(q))
 		case "botp_rolecert_other":
 			w.armBootstrapOTP("svc", "otp-svc", time.Hour)
 			q := role()
